@@ -43,7 +43,11 @@ def maybe_multi(rng, fn):
         return None
     if r < 0.8:
         return fn()
-    return [fn() for _ in range(rng.randint(1, 3))]
+    vals = [fn() for _ in range(rng.randint(1, 3))]
+    r = rng.random()
+    if r < 0.35:
+        return {'$iter': vals, 'form': rng.choice(['iter', 'generator', 'map', 'tuple'])}   # documented: "iterable of strings"
+    return vals
 
 
 def gen_cases(tier, seed):
@@ -91,7 +95,7 @@ def gen_cases(tier, seed):
             kw = {'lat': lat, 'lng': lng}
         elif h == 'email':
             addr = lambda: rng.choice(['a@b.c', 'me@example.org', 'x.y+z@sub.example.com', 'first_last@ex-ample.org'])  # noqa: E731
-            kw = {'to': rng.choice([addr(), [addr(), addr()], (addr(),)])}
+            kw = {'to': rng.choice([addr(), [addr(), addr()], (addr(),), {'$iter': [addr(), addr()], 'form': 'generator'}])}
             for f in ('cc', 'bcc'):
                 if rng.random() < 0.3:
                     kw[f] = rng.choice([addr(), [addr(), addr()]])
@@ -126,6 +130,8 @@ def epc_case(rng, bad=False):
         kw['purpose'] = rng.choice(['CHAR', 'GDDS'])
     if rng.random() < 0.35:
         kw['encoding'] = rng.choice([1, 2, 3, 4, 5, 6, 7, 8, 'utf-8', 'ISO-8859-1', 'iso-8859-15', 'iso-8859-7'])
+    if rng.random() < 0.15 and form in ('decimal', 'str', 'int'):
+        kw['ctx_prec'] = rng.choice([4, 6, 9])   # the caller's ambient decimal context must not matter
     if bad:
         which = rng.choice(['name-long', 'name-empty', 'iban-short', 'iban-long', 'bic-len', 'purpose-len', 'text-long', 'ref-long',
                             'both', 'neither', 'amount-zero', 'amount-big', 'amount-neg', 'enc-num', 'enc-name', 'amount-window', 'amount-window'])
@@ -204,9 +210,27 @@ def unescape(s):
 def multi(v):
     if not v:
         return []
+    if isinstance(v, dict) and '$iter' in v:
+        return list(v['$iter'])
     if isinstance(v, str):
         return [v]
     return list(v)
+
+
+def real_kw(kw):
+    """Materialises one-shot iterables (a fresh iterator / generator per call)."""
+    out = {}
+    for k, v in kw.items():
+        if isinstance(v, dict) and '$iter' in v:
+            vals = list(v['$iter'])
+            form = v.get('form')
+            out[k] = iter(vals) if form == 'iter' else ((x for x in vals) if form == 'generator' else
+                                                        (map(str, vals) if form == 'map' else tuple(vals)))
+        elif isinstance(v, dict) and '$date' in v:
+            out[k] = date_of(v)
+        else:
+            out[k] = v
+    return out
 
 
 def parse_card(payload, prefix):
@@ -262,10 +286,7 @@ def compare_fields(name, data, prefix, exp, rec):
 
 def check_mecard(kw, rec):
     from segno import helpers
-    k = dict(kw)
-    if 'birthday' in k:
-        k['birthday'] = date_of(k['birthday'])
-    data = helpers.make_mecard_data(**k)
+    data = helpers.make_mecard_data(**real_kw(kw))
     exp = [('N', kw['name'])]
     if kw.get('reading'):
         exp.append(('SOUND', kw['reading']))
@@ -306,12 +327,8 @@ def vunescape(s):
 
 def check_vcard(kw, rec):
     from segno import helpers
-    k = dict(kw)
-    for f in ('birthday', 'rev'):
-        if f in k:
-            k[f] = date_of(k[f])
     try:
-        data = helpers.make_vcard_data(**k)
+        data = helpers.make_vcard_data(**real_kw(kw))
     except ValueError as ex:
         if bool(kw.get('lat')) != bool(kw.get('lng')):
             return None   # lat/lng of 0 counts as missing: documented precondition "specify latitude and longitude"
@@ -402,7 +419,7 @@ _HVAL = re.compile(r"^(?:[A-Za-z0-9\-._~!$'()*+,;:@/?]|%[0-9A-Fa-f]{2})*$")
 
 def check_email(kw, rec):
     from segno import helpers
-    data = helpers.make_make_email_data(**kw)
+    data = helpers.make_make_email_data(**real_kw(kw))
     rec.count('email_checked')
     m = _MAILTO.match(data)
     if not m:
@@ -469,9 +486,12 @@ def check_epc(kw, rec, want_symbol):
         if f in kw:
             args[f] = kw[f]
     bad = kw.get('bad')
+    import contextlib
+    ctx = decimal.localcontext() if not kw.get('ctx_prec') else decimal.localcontext(decimal.Context(prec=kw['ctx_prec']))
     # an explicit encoding that cannot represent the fields is a refusal of its own (UnicodeEncodeError is a ValueError)
     try:
-        data = helpers._make_epc_qr_data(**args)
+        with ctx:
+            data = helpers._make_epc_qr_data(**args)
         ex = None
     except ValueError as e:
         data, ex = None, e
@@ -559,10 +579,7 @@ def run_cases(cases, rec, tier='quick', seed='0'):
                 fn, factory = fns[h]
                 data = fn(kw, rec)
                 if data is not None and case['symbol']:
-                    k = dict(kw)
-                    for f in ('birthday', 'rev'):
-                        if f in k:
-                            k[f] = date_of(k[f])
+                    k = real_kw(kw)
                     monitors.State.last = None
                     try:
                         getattr(helpers, factory)(**k)
